@@ -11,3 +11,8 @@ package set
 //@ inline func New[T comparable](elements ...T) Set[T]
 //@   loop 0 modifies s
 //@   loop 0 invariant s != nil && (forall k T :: __in(s, k) == (exists j int :: 0 <= j && j < __ri(0) && elements[j] == k))
+//@ # lo.Keys: the keys of the set, in some order (assumed)
+//@ trusted func (s Set[T]) Slice() (r []T)
+//@   tparams T comparable
+//@   ensures forall k T :: (exists i int :: 0 <= i && i < len(r) && r[i] == k) == __in(s, k)
+//@   modifies nothing
